@@ -124,6 +124,8 @@ func evaluationLoop(
 			p.Fatal(ctx, err)
 		}
 
+		verifStep(&p, round, isLoad, t == nil)
+
 		err = evaluator.Eval(&p, ctx, t)
 		if err != nil {
 			p.Fatal(ctx, err)
